@@ -507,6 +507,13 @@ Proof.
 Qed.
 
 (* a Drop for SharedFd run to its end *)
+Ltac dnorm :=
+  unfold set_droppers;
+  cbn [strong waits waker wwoken fd closes handles ops forgotten closers droppers];
+  rewrite ?upd_last.
+Ltac dstep :=
+  unfold drop_step at 1; cbn [droppers]; rewrite nth_last; dnorm.
+
 Lemma drop_run g n w wk ww f c h o fg cs ds :
   1 <= n -> (n = 1 -> f = FShared) ->
   finish_drops g (mk_st n w wk ww f c h o fg cs (ds ++ [DCount])) =
@@ -515,34 +522,130 @@ Lemma drop_run g n w wk ww f c h o fg cs ds :
 Proof.
   intros Hn Hf. unfold finish_drops. cbn [droppers]. rewrite app_length. cbn [length].
   replace (length ds + 1 - 1) with (length ds) by lia.
-  cbn [saturate step]. unfold drop_step at 1. cbn [droppers]. rewrite nth_last.
-  cbn [set_droppers strong waits waker wwoken fd closes handles ops forgotten closers droppers].
-  rewrite upd_last.
+  cbn [saturate step]. dstep.
   destruct (n =? 2) eqn:E2.
-  - apply Nat.eqb_eq in E2. subst n. cbn [andb].
-    unfold drop_step at 1. cbn [droppers]. rewrite nth_last.
-    cbn [set_droppers strong waits waker wwoken fd closes handles ops forgotten closers droppers].
-    rewrite upd_last.
+  - apply Nat.eqb_eq in E2. subst n. cbn [andb]. dstep.
     destruct w.
-    + unfold drop_step at 1. cbn [droppers]. rewrite nth_last.
-      unfold do_wake. cbn [waker].
-      destruct wk;
-        cbn [set_droppers strong waits waker wwoken fd closes handles ops forgotten closers droppers];
-        rewrite upd_last;
-        unfold drop_step at 1; cbn [droppers]; rewrite nth_last;
-        unfold do_dec; cbn [strong fd waits waker wwoken closes handles ops forgotten closers droppers set_droppers];
-        rewrite upd_last; cbn [Nat.eqb Nat.sub]; rewrite ?orb_true_r, ?orb_false_r; reflexivity.
-    + unfold drop_step at 1. cbn [droppers]. rewrite nth_last.
-      unfold do_dec; cbn [strong fd waits waker wwoken closes handles ops forgotten closers droppers set_droppers].
-      rewrite upd_last. cbn [saturate step]. unfold drop_step. cbn [droppers]. rewrite nth_last.
+    + dstep. unfold do_wake. cbn [waker].
+      destruct wk; dnorm; dstep; unfold do_dec; dnorm; cbn [Nat.eqb Nat.sub];
+        rewrite ?orb_true_r, ?orb_false_r; reflexivity.
+    + dstep. unfold do_dec. dnorm. unfold drop_step. cbn [droppers]. rewrite nth_last.
       cbn [Nat.eqb Nat.sub]. reflexivity.
-  - cbn [andb].
-    unfold drop_step at 1. cbn [droppers]. rewrite nth_last.
-    unfold do_dec; cbn [strong fd waits waker wwoken closes handles ops forgotten closers droppers set_droppers].
+  - cbn [andb]. dstep. unfold do_dec. cbn [strong fd].
     destruct n as [|[|n]]; [lia| |].
-    + rewrite (Hf eq_refl). cbn [strong fd waits waker wwoken closes handles ops forgotten closers droppers set_droppers].
-      rewrite upd_last. cbn [saturate step]. unfold drop_step. cbn [droppers]. rewrite nth_last. reflexivity.
-    + cbn [strong fd waits waker wwoken closes handles ops forgotten closers droppers set_droppers].
-      rewrite upd_last. cbn [saturate step]. unfold drop_step. cbn [droppers]. rewrite nth_last.
+    + rewrite (Hf eq_refl). dnorm. unfold drop_step. cbn [droppers]. rewrite nth_last. reflexivity.
+    + dnorm. unfold drop_step. cbn [droppers]. rewrite nth_last.
       cbn [Nat.eqb Nat.sub] in *. destruct n; [discriminate|]. reflexivity.
+Qed.
+
+Definition nd (d : dpc) : bool := negb (dlive d).
+
+Lemma all_done_last ds :
+  forallb nd ds = true -> ds = [] \/ exists ds', ds = ds' ++ [DDone].
+Proof.
+  induction ds as [|a l _] using rev_ind; [left; reflexivity|].
+  intros H. rewrite forallb_app in H. apply andb_true_iff in H. destruct H as [_ H].
+  cbn in H. right. exists l. destruct a; cbn in H; try discriminate. reflexivity.
+Qed.
+
+Lemma finish_drops_idle g s : forallb nd (droppers s) = true -> finish_drops g s = s.
+Proof.
+  intros H. unfold finish_drops. destruct (all_done_last _ H) as [E | [ds E]]; rewrite E.
+  - cbn [length Nat.sub saturate step]. unfold drop_step. rewrite E. reflexivity.
+  - rewrite app_length. cbn [length]. replace (length ds + 1 - 1) with (length ds) by lia.
+    cbn [saturate step]. unfold drop_step. rewrite E, nth_last. reflexivity.
+Qed.
+
+Lemma upd_upd {A} (l : list A) k f g : upd (upd l k f) k g = upd l k (fun x => g (f x)).
+Proof.
+  destruct (nth_error l k) as [x|] eqn:Hk.
+  - apply nth_error_split in Hk. destruct Hk as (l1 & l2 & -> & <-). rewrite !upd_split. reflexivity.
+  - rewrite (upd_none l k f Hk), (upd_none l k g Hk), (upd_none l k _ Hk). reflexivity.
+Qed.
+
+Lemma upd_const {A} (l : list A) k F x : nth_error l k = Some x -> upd l k F = upd l k (fun _ => F x).
+Proof. intros H. unfold upd. rewrite H. reflexivity. Qed.
+
+(* one poll of closer c up to its return, in closed form *)
+Definition poll_tail (s : st) (c : nat) (x : closer) (wt ww' wi : bool) : st :=
+  if strong s =? 1 then
+    mk_st 0 wt (waker s) ww' FMoved (closes s) (handles s) (ops s) (forgotten s)
+          (upd (closers s) c (fun _ => mk_closer (if cf x then CClosing else CSome) (cf x) wi)) (droppers s)
+  else
+    mk_st (strong s) wt true ww' (fd s) (closes s) (handles s) (ops s) (forgotten s)
+          (upd (closers s) c (fun _ => mk_closer CPending (cf x) wi)) (droppers s).
+
+Definition poll_result (g : cfg) (s : st) (c : nat) (x : closer) : st :=
+  match pc x with
+  | CUnpolled | CCreated =>
+    if waits s then
+      spawn_drop (negb (closer_release_wakes g))
+                 (set_closers s (upd (closers s) c (fun _ => mk_closer CGone (cf x) (winner x))))
+    else poll_tail s c x true (wwoken s) true
+  | CPending => poll_tail s c x (waits s) false (winner x)
+  | CClosing => set_wwoken s false
+  | CClosed => set_wwoken (set_closers s (upd (closers s) c (fun _ => mk_closer CDone (cf x) (winner x)))) false
+  | _ => s
+  end.
+
+Ltac pnorm :=
+  unfold set_closers, set_wwoken, spawn_drop, set_droppers, try_unwrap, first_poll;
+  cbn [strong waits waker wwoken fd closes handles ops forgotten closers droppers].
+
+Lemma poll_tail_run g k n w wk ww f cl h o fg cs dr c x wi :
+  nth_error cs c = Some x ->
+  poll_run g (S (S (S (S k)))) c
+    (mk_st n w wk ww f cl h o fg (upd cs c (fun _ => mk_closer CTry1 (cf x) wi)) dr) =
+  poll_tail (mk_st n w wk ww f cl h o fg cs dr) c x w ww wi.
+Proof.
+  intros Hx. unfold poll_tail. cbn [strong waits waker wwoken fd closes handles ops forgotten closers droppers].
+  cbn [poll_run step]. unfold poll_step at 1. cbn [closers]. rewrite (nth_upd_same _ _ _ _ Hx). cbn [pc].
+  pnorm. destruct (n =? 1) eqn:E.
+  - cbn [closers]. rewrite upd_upd. rewrite (nth_upd_same _ _ _ _ Hx). cbn [w_pc pc cf winner returns].
+    destruct (cf x) eqn:Ecf; cbn [negb].
+    + cbn [poll_run step]. unfold poll_step at 1. cbn [closers]. rewrite (nth_upd_same _ _ _ _ Hx).
+      cbn [pc cf]. pnorm. rewrite upd_upd. rewrite (nth_upd_same _ _ _ _ Hx). cbn [w_pc pc cf winner returns].
+      reflexivity.
+    + reflexivity.
+  - cbn [closers]. rewrite upd_upd. rewrite (nth_upd_same _ _ _ _ Hx). cbn [w_pc pc cf winner returns].
+    cbn [poll_run step]. unfold poll_step at 1. cbn [closers]. rewrite (nth_upd_same _ _ _ _ Hx). cbn [pc].
+    pnorm. rewrite upd_upd. rewrite (nth_upd_same _ _ _ _ Hx). cbn [w_pc pc cf winner returns].
+    cbn [poll_run step]. unfold poll_step at 1. cbn [closers]. rewrite (nth_upd_same _ _ _ _ Hx). cbn [pc].
+    pnorm. rewrite E. cbn [closers]. rewrite upd_upd. rewrite (nth_upd_same _ _ _ _ Hx).
+    cbn [w_pc pc cf winner returns]. reflexivity.
+Qed.
+
+Lemma poll_run_spec g s c x :
+  nth_error (closers s) c = Some x -> pollable s c = true ->
+  poll_run g 6 c s = poll_result g s c x.
+Proof.
+  intros Hx Hp. unfold pollable in Hp. rewrite Hx in Hp.
+  destruct s as [n w wk ww f cl h o fg cs dr]. cbn [closers] in Hx.
+  unfold poll_result. cbn [strong waits waker wwoken fd closes handles ops forgotten closers droppers].
+  destruct (pc x) eqn:Hpc; try discriminate.
+  - (* CUnpolled *)
+    cbn [poll_run step]. unfold poll_step at 1. cbn [closers]. rewrite Hx, Hpc. pnorm.
+    destruct w.
+    + pnorm. rewrite (nth_upd_same _ _ _ _ Hx). cbn [w_pc pc returns].
+      rewrite (upd_const _ _ _ _ Hx). reflexivity.
+    + pnorm. rewrite (nth_upd_same _ _ _ _ Hx). cbn [pc returns].
+      rewrite (upd_const _ _ _ _ Hx). apply (poll_tail_run g 1). exact Hx.
+  - (* CCreated *)
+    cbn [poll_run step]. unfold poll_step at 1. cbn [closers]. rewrite Hx, Hpc. pnorm.
+    destruct w.
+    + pnorm. rewrite (nth_upd_same _ _ _ _ Hx). cbn [w_pc pc returns].
+      rewrite (upd_const _ _ _ _ Hx). reflexivity.
+    + pnorm. rewrite (nth_upd_same _ _ _ _ Hx). cbn [pc returns].
+      rewrite (upd_const _ _ _ _ Hx). apply (poll_tail_run g 1). exact Hx.
+  - (* CPending *)
+    cbn [poll_run step]. unfold poll_step at 1. cbn [closers]. rewrite Hx, Hpc. pnorm.
+    rewrite (nth_upd_same _ _ _ _ Hx). cbn [w_pc pc returns].
+    rewrite (upd_const _ _ _ _ Hx). cbn [w_pc]. apply (poll_tail_run g 1). exact Hx.
+  - (* CClosing *)
+    cbn [poll_run step]. unfold poll_step at 1. cbn [closers]. rewrite Hx, Hpc. pnorm.
+    rewrite Hx. unfold returns. rewrite Hpc. reflexivity.
+  - (* CClosed *)
+    cbn [poll_run step]. unfold poll_step at 1. cbn [closers]. rewrite Hx, Hpc. pnorm.
+    rewrite (nth_upd_same _ _ _ _ Hx). cbn [w_pc pc returns].
+    rewrite (upd_const _ _ _ _ Hx). reflexivity.
 Qed.
